@@ -143,7 +143,7 @@ def drive(rec, ms, quick):
                             rec.violation("%s m=%d mask=%d impulse at %d: output %d is w^%d, the documented map gives w^%d" % (
                                 name, m, mask, i, jbad, int(ex[jbad]), int(exp_all[jbad])), {"impl": name, "m": m, "i": i, "j": jbad})
                 # ---------------- accuracy on dense inputs + determinism + table immutability
-                fams = ["const", "resonant", "dynrange", "random"] if (m <= 4096 or not quick) else ["random"]
+                fams = ["const", "resonant", "dynrange", "tiny", "huge", "random"] if (m <= 4096 or not quick) else ["random", "tiny"]
                 for fam in fams:
                     if fam == "const":
                         z = np.full(m, 1.0 - 2.0j)
@@ -154,6 +154,16 @@ def drive(rec, ms, quick):
                     elif fam == "dynrange":
                         z = np.array([(rng.random() - 0.5) * 2.0 ** rng.randrange(-40, 40) + 1j * (rng.random() - 0.5) * 2.0 ** rng.randrange(-40, 40)
                                       for _ in range(m)]) if m <= 4096 else (np.random.default_rng(rng.randrange(1 << 30)).standard_normal(m) * 1e20 + 0j)
+                    elif fam in ("tiny", "huge"):
+                        # "every finite input": magnitudes reaching into the subnormal doubles (2^-1000 .. 2^-1060), resp. close to the
+                        # largest ones (2^960 .. 2^1000, so that sums of m terms stay finite)
+                        g = np.random.default_rng(rng.randrange(1 << 30))
+                        ex = g.integers(-1060, -999, m) if fam == "tiny" else g.integers(960 - 18, 1000 - 18, m)
+                        if fam == "tiny":
+                            # gradual underflow costs an ABSOLUTE 2^-1075 per operation on the small terms: the clause is meaningful when the
+                            # norm is carried by normal numbers, so one coefficient is pinned at the top of the range (norm >= 2^-1001)
+                            ex[0] = -1000
+                        z = np.ldexp(g.uniform(0.5, 1.0, m) * g.choice([-1.0, 1.0], m), ex) + 1j * np.ldexp(g.uniform(0.5, 1.0, m) * g.choice([-1.0, 1.0], m), ex)
                     else:
                         g = np.random.default_rng(rng.randrange(1 << 30))
                         z = g.standard_normal(m) + 1j * g.standard_normal(m)
@@ -165,8 +175,12 @@ def drive(rec, ms, quick):
                         rec.violation("%s m=%d: write outside the data or non-finite output" % (name, m), {"m": m})
                         continue
                     ref = exact_transform(z, tr == "ifft")
-                    err2 = float(np.sum(np.abs(out.astype(CLD) - ref) ** 2))
-                    ref2 = float(np.sum(np.abs(ref) ** 2))
+                    # both norms on a common power-of-two scale (exact), so that very small and very large data neither vanish nor overflow
+                    mx = float(np.max(np.abs(ref)))
+                    e0 = math.frexp(mx)[1] if mx > 0 and np.isfinite(mx) else 0
+                    sc0 = np.ldexp(LD(1), -e0)
+                    err2 = float(np.sum(np.abs((out.astype(CLD) - ref) * sc0) ** 2))
+                    ref2 = float(np.sum(np.abs(ref * sc0) ** 2))
                     # integers on a common power-of-two scale: ref2 ~ 2^200 (rounded up), err2 rounded down: both loosen
                     sc = 200 - (math.frexp(ref2)[1] if ref2 > 0 else 0)
                     ei, ri = int(math.floor(math.ldexp(err2, sc))) if err2 > 0 else 0, int(math.ceil(math.ldexp(ref2, sc))) if ref2 > 0 else 0
